@@ -27,6 +27,9 @@ type publicKeyDTO[P curves.Point[P, B, S], B algebra.PrimeFieldElement[B], S alg
 // NewPublicKey creates a PublicKey from an elliptic curve point.
 // The point must be a valid, non-zero point on a supported ECDSA curve.
 func NewPublicKey[P curves.Point[P, B, S], B algebra.PrimeFieldElement[B], S algebra.PrimeFieldElement[S]](pk P) (*PublicKey[P, B, S], error) {
+	if utils.IsNil(pk) {
+		return nil, signatures.ErrInvalidArgument.WithMessage("public key is nil")
+	}
 	if pk.IsZero() {
 		return nil, signatures.ErrFailed.WithMessage("public key is zero")
 	}
